@@ -3,7 +3,7 @@
    witnesses of the refutation theorems (closed computations checked by the kernel). *)
 From Coq Require Import PrimFloat ZArith List Bool Lia.
 Import ListNotations.
-Require Import PyBase Solver SolverFacts SolverF SolveAll Tracer TracerSolve TracerLinked TracerFacts TracerFacts2 TracerF.
+Require Import PyBase Solver SolverFacts SolverF SolveAll Tracer TracerSolve TracerNames TracerLinked TracerReindex TracerFacts TracerFacts2 TracerF.
 Open Scope Z_scope.
 
 (* ---------------- the scripted oracles keep the shape of the store: the premise of C17 is met by every script *)
@@ -319,3 +319,15 @@ Example tx_linked :
   /\ plain_passes float (s_ev 3 tx_scripts) 1 ERaise false 1 3 (vals_of tx_state)
      = ([[0%float; 1.5%float; 0%float]; [2%float; 3%float; 4%float]], None).
 Proof. split; vm_compute; reflexivity. Qed.
+
+(* ---------------- reindex(range(5)) of the three-period model after period 1 was traced (tx_tr1): periods 0..2 keep
+   the SAME Trace objects, periods 3 and 4 hold None; tracing period 3 raises AttributeError; tracing period 1 again
+   through the reindexed instance appends to the object the original still holds *)
+Definition tx_cells : list tcell := [Some 0%nat; Some 1%nat; Some 2%nat].
+Definition tx_positions : list (option nat) := [Some 0%nat; Some 1%nat; Some 2%nat; None; None].
+Example tx_reindex :
+  reindex_cells tx_positions tx_cells = [Some 0%nat; Some 1%nat; Some 2%nat; None; None]
+  /\ snd (trace_t_cells float [0%nat] false 3%nat LStart [2.5%float] (reindex_cells tx_positions tx_cells) tx_tr1) = Some AttributeError
+  /\ (let '((_, h'), e) := trace_t_cells float [0%nat] false 1%nat LStart [2.5%float] (reindex_cells tx_positions tx_cells) tx_tr1 in
+      e = None /\ length (tr_index (tderef float h' 1%nat)) = 8%nat /\ length (tr_index (tderef float tx_tr1 1%nat)) = 7%nat).
+Proof. split; [reflexivity|]. split; vm_compute; repeat split; reflexivity. Qed.
